@@ -226,14 +226,6 @@ class Sdate(_Base):
             return
         n = self.T + (1 if self.b else 0)
         h.claim('count', z3.BoolVal(len(out) == n))
-        # digit lemmas about HHMMSS = H*10000 + M*100 + S: proved first,
-        # then available to the solver as facts for the main claims
-        tse = (tH * 10000 + tM * 100 + tS).e
-        for lab, lem in (('lemma:hours', tse / 10000 == tH.e),
-                         ('lemma:minutes', (tse / 100) % 100 == tM.e),
-                         ('lemma:seconds', tse % 100 == tS.e)):
-            if h.claim(lab, lem) == 'unsat':
-                ctx.assume(lem, check=False)
         r0 = ref_instant(y, j, H, M, S)
         step = (tH * 3600 + tM * 60 + tS) * US
         for t in range(min(n, len(out))):
@@ -467,9 +459,8 @@ def obligations(tier):
                 continue
             for ref in (REFS[0], REFS[2]):
                 if tier == 'quick':
-                    if unit in ('hours', 'minutes', 'seconds') or \
-                            (ref == REFS[0]) != (cal == 'noleap'):
-                        continue
+                    if unit in ('minutes', 'seconds'):
+                        continue   # thorough tier (minutes of solver time)
                     for yo in (-1, 0, 1):
                         obs.append(CFTime(unit, ref, cal, False, 1, yo))
                 else:
